@@ -14,8 +14,11 @@ def gen_chk(seed, path, nspecies=3, nghost=None, aniso=True, time=None, nlevels=
     rng = random.Random(seed)
     nprng = np.random.default_rng(seed)
     if scale:      # one box of a million cells (a state FAB of more than 4 million values) beside a thin one
-        m = gen.gen_model(seed, ndims=3, nlevels=1, nfields=1, aniso=aniso, base=[136, 96, 80],
-                          sizes=[[128, 8], [96], [80]], origin=origin)
+        for k in range(50):      # 136 = 128 + 8, but also 17 x 8: draw until the tiling holds the big box
+            m = gen.gen_model(seed + 100003 * k, ndims=3, nlevels=1, nfields=1, aniso=aniso, base=[136, 96, 80],
+                              sizes=[[128, 8], [96], [80]], origin=origin)
+            if max(b.shape[0] for b in m.boxes[0]) == 128:
+                break
     else:
         m = gen.gen_model(seed, ndims=3, nlevels=nlevels if nlevels else rng.randint(1, 3), nfields=1,
                           aniso=aniso, bf=bf, base_blocks=base_blocks, origin=origin)
